@@ -188,7 +188,7 @@ inductive Err where
 inductive Res (α : Type) where
   | ok (a : α) (rest : Bytes) (allocs : List Nat)
   | err (e : Err) (allocs : List Nat)
-  deriving Repr
+  deriving Repr, DecidableEq
 
 /-- prepend earlier allocations -/
 def Res.pre {α : Type} (al : List Nat) : Res α → Res α
@@ -198,6 +198,11 @@ def Res.pre {α : Type} (al : List Nat) : Res α → Res α
 def Res.bind {α β : Type} (r : Res α) (f : α → Bytes → Res β) : Res β :=
   match r with
   | .ok a rest al => (f a rest).pre al
+  | .err e al => .err e al
+
+/-- post-process the value (no bytes read, no allocation) -/
+def Res.map {α β : Type} (f : α → β) : Res α → Res β
+  | .ok a r al => .ok (f a) r al
   | .err e al => .err e al
 
 def Res.allocs {α : Type} : Res α → List Nat
@@ -258,14 +263,14 @@ def readStrings : Nat → Bytes → Res (List Bytes)
   | 0, bs => .ok [] bs []
   | n+1, bs =>
     (readString bs).bind fun s r =>
-    (readStrings n r).bind fun ss r' => .ok (s :: ss) r' []
+    (readStrings n r).map (s :: ·)
 
 def readPairs : Nat → Bytes → Res (List (Bytes × Bytes))
   | 0, bs => .ok [] bs []
   | n+1, bs =>
     (readString bs).bind fun f r =>
     (readString r).bind fun v r' =>
-    (readPairs n r').bind fun ps r'' => .ok ((f, v) :: ps) r'' []
+    (readPairs n r').map ((f, v) :: ·)
 
 /-! ### The engine operations the loader calls, on one database (`valid` = index < 16) -/
 
@@ -372,7 +377,7 @@ def readZPairs : Nat → Bytes → Res (List (Bytes × Nat))
   | n+1, bs =>
     (readString bs).bind fun m r =>
     (readFixed 8 r).bind fun sc r' =>
-    (readZPairs n r').bind fun ps r'' => .ok ((m, leVal sc) :: ps) r'' []
+    (readZPairs n r').map ((m, leVal sc) :: ·)
 
 /-- `StreamId::parse_u64_fast`: digits only (the empty string gives 0), wrapping arithmetic. -/
 def parseU64Fast (bs : Bytes) : Option Nat :=
@@ -594,7 +599,8 @@ def entryWF (e : Entry) : Bool :=
   | none => true
   | some d => decide (d < two64)
 
-def dbWF (db : Db) : Bool := db.all entryWF && decide ((db.map (·.key)).Nodup)
+def dbWF (db : Db) : Bool :=
+  db.all entryWF && decide (db.length < two32) && decide ((db.map (·.key)).Nodup)
 
 /-- databases: distinct indices below 16, each non-empty with distinct keys -/
 def datasetWF (d : Dataset) : Bool :=
